@@ -190,7 +190,20 @@ impl<T: ?Sized> RwLock<T> {
     }
 
     fn read_unlock(&self) {
+        // a guard's drop must always give back what the guard holds: it must not
+        // leave `rlock.lock()` by the cancel panic (this also runs while a cancel unwinds)
+        let cancel = if crate::coroutine_impl::is_coroutine() {
+            Some(crate::coroutine_impl::current_cancel_data())
+        } else {
+            None
+        };
+        if let Some(c) = cancel.as_ref() {
+            c.disable_cancel();
+        }
         let mut r = self.rlock.lock().expect("rwlock read_unlock");
+        if let Some(c) = cancel.as_ref() {
+            c.enable_cancel();
+        }
         *r -= 1;
         if *r == 0 {
             self.unlock();
